@@ -612,7 +612,9 @@ def check_algebra(ctx, rng, reqs, metas, n_cases):
             # into negative table entries, the model's table is over the naturals)
             ops.append({"k": "setMirror", "n": rng.randint(0, n_maps - 1), "m": rng.randint(0, n_maps - 1)})
         if rng.random() < 0.3:
-            ops.append({"k": "slice", "from": rng.randint(0, n_maps), "to": None if rng.random() < 0.5 else rng.randint(0, n_maps + 1)})
+            # `from` may lie one past the receiver's last map: an append then starts the walk inside the appended part
+            ops.append({"k": "slice", "from": rng.randint(0, n_maps + (1 if rng.random() < 0.3 else 0)),
+                        "to": None if rng.random() < 0.5 else rng.randint(0, n_maps + 1)})
         shape, other = _rand_other(rng)
         final = rng.choice(["appendMapping", "appendMappingInverted", "appendMapping", "appendMappingInverted",
                             "invert", "slice", "appendMap", "appendThenSlice"])
@@ -667,13 +669,19 @@ def check_algebra(ctx, rng, reqs, metas, n_cases):
             last = ops[-1]
             if last["k"] in ("appendMapping", "appendMappingInverted", "appendMap"):
                 recv = apply_ops(ops[:-1])
-                if recv.from_ <= len(recv.maps):
-                    head = recv.slice(recv.from_)
+                if True:
                     if last["k"] == "appendMap":
                         tail = Mapping([StepMap(list(last["m"][0]), last["m"][1])])
                     else:
                         oth = _mapping_from_json(last["mapping"])
                         tail = oth.invert() if last["k"] == "appendMappingInverted" else oth.slice(0)
+                    if recv.from_ <= len(recv.maps):
+                        head = recv.slice(recv.from_)
+                    else:
+                        # the receiver's from_ lies beyond its last map: nothing of the receiver, the appended part read from from_ - len
+                        head = Mapping()
+                        tail = tail.slice(recv.from_ - len(recv.maps))
+                        ctx.count("algebra_late_start")
                     if len(tail.maps) > 0:
                         for ai, assoc in enumerate((-1, 1)):
                             for p in range(n):
